@@ -3,6 +3,7 @@ CONSTANTS
   K = 3
   MaxLeaves = 2
   MaxLeaves2 = 2
+  LargerFirstFrom = 99
   Cells1 <- CellsS2
   Cells2 <- CellsS2
   Weights = {1}
